@@ -1,7 +1,7 @@
 import H264.SpsC04
 import H264.SpsExact
-import H264.Tables2
-import H264.TblProof
+import H264.Tables2C04
+import H264.TblProofC04
 /-! # C04 — SPS parsing recovers exactly the values encoded per H.264 7.3.2.1 / Annex E
 
 Model: `Sps.parseSps` mirrors `SeqParameterSet::from_bits` and all its sub-readers (same order of reads and checks).
